@@ -1183,7 +1183,56 @@ async def second_half_runs_at_the_outer_teardown():
     return ok, f"{ran}; the outer context ended: {out}"
 
 
-SCENARIOS = {f.__name__: f for f in (optional_injection_is_the_optional_lookup, hard_coded_kwargs_reach_the_child_as_they_are,
+async def start_value_and_failed_starts():
+    """C09 (start_value, outside the model): start_task() with a function that takes `task_status` returns only when
+    the task has called started(), and the handle carries the value; a task that fails or ends before it has
+    called started() makes start_task() raise, and its handle is NOT among all_task_handles() afterwards; the same
+    through Context.start_service_task (the value is returned)"""
+    out = {}
+    async with Context() as ctx:
+        tf = await ctx.start_background_task_factory(exception_handler=lambda e: True)
+        order = []
+
+        async def ok(*, task_status):
+            order.append("before")
+            await anyio.sleep(0.01)
+            task_status.started("ready")
+            order.append("after")
+            await anyio.sleep(0.01)
+        h = await tf.start_task(ok)
+        out["ok"] = (h.start_value, order[:1] == ["before"], h in tf.all_task_handles())
+        await h.wait_finished()
+        out["ok_done"] = h not in tf.all_task_handles()
+
+        async def fails_early(*, task_status):
+            raise ValueError("no start")
+        try:
+            await tf.start_task(fails_early)
+            out["fails_early"] = "returned"
+        except BaseException as e:  # noqa
+            out["fails_early"] = type(e).__name__
+        out["fails_early_listed"] = len(tf.all_task_handles())
+
+        async def ends_early(*, task_status):
+            return None
+        try:
+            await tf.start_task(ends_early)
+            out["ends_early"] = "returned"
+        except BaseException as e:  # noqa
+            out["ends_early"] = type(e).__name__
+        out["ends_early_listed"] = len(tf.all_task_handles())
+
+        async def svc(*, task_status):
+            task_status.started(42)
+            await anyio.sleep_forever()
+        out["service_value"] = await ctx.start_service_task(svc, "svc")
+    ok = out["ok"] == ("ready", True, True) and out["ok_done"] and out["fails_early"] != "returned" \
+        and out["fails_early_listed"] == 0 and out["ends_early"] == "RuntimeError" and out["ends_early_listed"] == 0 \
+        and out["service_value"] == 42
+    return ok, f"{out}"
+
+
+SCENARIOS = {f.__name__: f for f in (optional_injection_is_the_optional_lookup, start_value_and_failed_starts, hard_coded_kwargs_reach_the_child_as_they_are,
                                      overriding_signal_has_its_own_event_class, second_half_runs_at_the_outer_teardown, rejected_add_registers_no_callback,
                                      wait_finished_means_completely_finished, dead_iterator_inside_its_block_disturbs_nobody,
                                      racing_lookups_generate_once, failing_factory_leaves_the_current_context_alone,
